@@ -32,6 +32,9 @@ def op_pool():
         ("disconnect", ("a", "g"), {}), ("remove", ("g",), {}), ("set_output", ("g",), {}), ("set_output", (["g", "ghost"],), {}),
         ("@add_blackbox", (*ff, "u0", {"d": "g", "q": "h"}), {}), ("@add_blackbox", (*ff, "u0", {"d": "g", "q": "ghost"}), {}), ("@add_blackbox", (*ff, "u0", None), {}),
         ("@fill", ("u0", "feedthrough"), {}),
+        # an instance whose pins match a child that carries a blackbox `r` of its own, and an unrelated instance that already has the
+        # name the child's blackbox would get: the fill must be rejected before anything is renamed or merged
+        ("@add_blackbox", ("cbbdef", ["x"], ["o"], "w0", None), {}), ("@add_blackbox", ("other", ["p"], ["z"], "w0_r", None), {}), ("@fill", ("w0", "withbb"), {}),
         ("@add_sub", ("ha", "s0", {"x": "a", "y": "g", "c": "h"}), {}), ("@add_sub", ("ha", "s0", {"x": "ghost"}), {}),
         ("@add_sub", ("withbb", "s1", {"x": "a", "o": "h"}), {}), ("@add_sub", ("withbb", "s1", {"x": "ghost"}), {}),
         ("remove", ("u0.d",), {}), ("connect", ("u0.q", "g"), {}), ("connect", ("a", "u0.q"), {}), ("connect", ("u0.d", "h"), {}),
@@ -43,7 +46,7 @@ def label(op):
     """Stable name of a pool operation (used in obligation keys: a finding is identified by the call that exposes it)."""
     m, a, k = op
     if m == "@add_blackbox":
-        return f"add_blackbox(u0, {a[4]})"
+        return f"add_blackbox({a[3]}, {a[4]})"
     if m == "@fill":
         return f"fill_blackbox({a[0]})"
     if m == "@add_sub":
@@ -95,7 +98,8 @@ def short_histories_rule(chk, rule, depth, file="circuit.py"):
     idx = {("add", "a"): 0, ("add", "b"): 1}
     base = (0, 1, 2, 4, 6)
     with_bb = base + (next(i for i, op in enumerate(pool) if op[0] == "@add_blackbox"),)
-    frontier = [(), base, with_bb]
+    i_w0 = [i for i, op in enumerate(pool) if op[0] == "@add_blackbox" and op[1][3] in ("w0", "w0_r")]
+    frontier = [(), base, with_bb, base + tuple(i_w0)]
     seen = {_sig(state_of(replay(sq)[0].c)) for sq in frontier}
     for level in range(depth):
         nxt = []
